@@ -576,12 +576,19 @@ func runC06(c *Ctx) {
 	for i := 0; i < 8; i++ {
 		gs = append(gs, c.Group(fmt.Sprintf("resp%d", i), []string{"IdPModel"}, "c06case", "check_c06"))
 	}
+	var gst []*Group
+	for i := 0; i < 4; i++ {
+		gst = append(gst, c.Group(fmt.Sprintf("steps%d", i), []string{"IdPModel"}, "c08scase", "check_c06s"))
+	}
 	n := 700
 	if c.Thorough() {
 		n = 12000
 	}
 	for i := 0; i < n; i++ {
 		in, key := genInput06(c.Rng, simpleKDs)
+		if in.wire != nil && i%2 == 0 { // the same request through the step API: every routing, every binding
+			stepCase(c, gst[(i/2)%len(gst)], in, nil, map[string]string{"class": "step-api", "route": key["route"]}, map[string]any{"cfg": in.cfg})
+		}
 		key["method"] = in.cfg.Method
 		if in.cfg.Signer != nil {
 			key["signer"] = "crypto.Signer:" + in.cfg.SignerKind
